@@ -95,6 +95,11 @@ class NackGenerator:
         # mark missing packets
         if uint16_gt(packet.sequence_number, self.max_seq):
             seq = uint16_add(self.max_seq, 1)
+            # packets older than the history size are dropped by truncate() anyway,
+            # do not walk through them after a large jump of the sequence number
+            oldest = uint16_add(packet.sequence_number, -RTP_HISTORY_SIZE)
+            if uint16_gt(oldest, seq):
+                seq = oldest
             while uint16_gt(packet.sequence_number, seq):
                 self.missing.add(seq)
                 missed = True
